@@ -34,7 +34,7 @@ struct CompositeBase
     {
         return {"", "create_track(2);create_root(|s);add_track(0,0)", "create_track(0);create_root(|p);create_sub(0|q);remove_track(0);create_track(3)",
                 // a chain of four crates with a track in the deepest one (deeper than the alphabet's crate limit lets the search build)
-                "create_root(|c0);create_sub(0|c1);create_sub(1|c2);create_sub(2|c3);create_track(2);add_track(3,0)"};
+                "@1:create_root(|c0);create_sub(0|c1);create_sub(1|c2);create_sub(2|c3);create_track(2);add_track(3,0)"};
     }
     static std::vector<Op> alphabet(const Model& m, const World&, int)
     {
